@@ -1,6 +1,7 @@
 package main
 
 import (
+	"encoding/json"
 	"flag"
 	"fmt"
 	"os"
@@ -12,12 +13,16 @@ type propDef struct {
 	run   func(c *Ctx)
 	level string
 	expl  string
+	tech  string
+	note  string
+	ref   string
 }
 
 var props = map[string]*propDef{}
 
-func register(id string, expl string, run func(c *Ctx)) {
-	props[id] = &propDef{id: id, run: run, level: "other", expl: expl}
+// register: technique, explanation (what is decided / not decided), trusted base note, DESIGN.md reference.
+func register(id, tech, expl, note, ref string, run func(c *Ctx)) {
+	props[id] = &propDef{id: id, run: run, level: "other", expl: expl, tech: tech, note: note, ref: ref}
 }
 
 func main() {
@@ -25,10 +30,20 @@ func main() {
 	tier := flag.String("tier", "quick", "quick|thorough")
 	repo := flag.String("repo", "/repo", "repository root")
 	list := flag.Bool("list", false, "list registered properties")
+	manifest := flag.Bool("manifest", false, "print manifest texts of registered properties as JSON")
 	flag.Parse()
 	repoDir = *repo
 	if t := os.Getenv("VERIF_TIER"); t != "" && *tier == "" {
 		*tier = t
+	}
+	if *manifest {
+		out := map[string]map[string]string{}
+		for id, d := range props {
+			out[id] = map[string]string{"technique": d.tech, "text": d.expl, "note": d.note, "ref": d.ref}
+		}
+		b, _ := json.MarshalIndent(out, "", " ")
+		fmt.Println(string(b))
+		return
 	}
 	if *list {
 		var ids []string
